@@ -308,3 +308,52 @@ def class_K9_separator_overlap(v):
 def witness_K9_separator_overlap():
     from d42.utils import rollout
     return rollout({"x:::y": 1}, separator="::") != {"x:": {"y": 1}}
+
+
+# ---------------------------------------------------------------------------------------------
+# C05: K7 (float re-substitution re-centres the tolerance window); C04: K12 (contains-list window)
+
+def class_K7_float_revalue(v):
+    """the ORIGINAL schema has a float with a fixed value at a position where the substituted value is a float
+    that differs from it"""
+    from d42.declaration.types import FloatSchema
+    s = v.get("py_schema")
+    if s is None:
+        return False
+    for x in _walk(s):
+        if isinstance(x, FloatSchema) and x.props.get("value") is not Nil:
+            return True
+    return False
+
+
+def witness_K7_float_revalue():
+    from d42 import schema, substitute, validate
+    s = schema.float(1.0)
+    r = substitute(s, 1.0000000009)
+    w = 1.0000000018
+    return (not validate(r, w).has_errors()) and validate(s, w).has_errors()
+
+
+def class_K12_contains_partial_window(v):
+    """S % v rejects v: S has a `[..., x, ...]` element list whose body holds a dict schema (a partial dict may be
+    substituted in an earlier window than the one that made v conform)"""
+    from d42.declaration.types import DictSchema, ListSchema
+    if "rejects v although v conforms" not in v.get("what", ""):
+        return False
+    s = v.get("py_schema")
+    if s is None:
+        return False
+    for x in _walk(s):
+        if isinstance(x, ListSchema):
+            els = x.props.get("elements")
+            if els is not Nil and len(els) > 2 and els[0] is Ellipsis and els[-1] is Ellipsis:
+                if any(isinstance(y, DictSchema) for e in els[1:-1] for y in _walk(e)):
+                    return True
+    return False
+
+
+def witness_K12_contains_partial_window():
+    from d42 import schema, substitute, validate
+    s = schema.list([..., schema.dict({"a": schema.int, "b": schema.int}), ...])
+    v = [{"a": 1}, {"a": 1, "b": 2}]
+    return (not validate(s, v).has_errors()) and validate(substitute(s, v), v).has_errors()
